@@ -786,7 +786,7 @@ class MySQLParser(SQLParser):
 
     @_('id LPAREN expr FROM expr RPAREN')
     def function(self, p):
-        return Function(op=p.id, args=[p.expr0], from_arg=p.expr1)
+        return Function(op=p.id.strip("`"), args=[p.expr0], from_arg=p.expr1)
 
     @_('DATABASE LPAREN RPAREN')
     def function(self, p):
@@ -794,7 +794,7 @@ class MySQLParser(SQLParser):
 
     @_('id LPAREN DISTINCT expr_list RPAREN')
     def function(self, p):
-        return Function(op=p.id, distinct=True, args=p.expr_list)
+        return Function(op=p.id.strip("`"), distinct=True, args=p.expr_list)
 
     @_('id LPAREN expr_list_or_nothing RPAREN')
     @_('id LPAREN star RPAREN')
@@ -805,7 +805,7 @@ class MySQLParser(SQLParser):
             args = p.expr_list_or_nothing
         if not args:
             args = []
-        return Function(op=p.id, args=args)
+        return Function(op=p.id.strip("`"), args=args)
 
     # arguments are optional in functions, so that things like `select database()` are possible
     @_('expr BETWEEN expr AND expr')
